@@ -43,20 +43,18 @@ type c13Params struct {
 func c13Cases() []c13Params {
 	var out []c13Params
 	schemes := c13SchemeList()
-	n := vfPick(2, 6)
+	n := vfPick(2, 18)
 	for i := 0; i < n; i++ {
 		cs := vfCaseSeed(vfSeed(), "C13", i)
 		rng := vfNewRng(cs)
 		p := c13Params{CaseIndex: i, Seed: cs, Engine: "bolt"}
 		switch {
-		case i == 0:
+		case !vfThorough() && i == 0:
 			p.Scheme = schemes[0] // the chained scheme exercises the link check of the store
-		case i < 5:
-			if vfThorough() {
-				p.Scheme = schemes[i]
-			} else {
-				p.Scheme = schemes[1+rng.Intn(4)]
-			}
+		case !vfThorough():
+			p.Scheme = schemes[1+rng.Intn(4)]
+		case i < 15:
+			p.Scheme = schemes[i%5] // every scheme three times (victim / size / joiner vary with the case seed)
 		default:
 			p.Scheme = schemes[rng.Intn(5)]
 			p.Engine = "memdb"
@@ -66,7 +64,7 @@ func c13Cases() []c13Params {
 		p.Victim = rng.Intn(p.N)
 		p.Joiner = rng.Bool()
 		p.ForcedLeave = true
-		p.Restarts = vfPick(16, 0)
+		p.Restarts = vfPick(40, 0) // quick: in effect the last image of every crash-window label
 		out = append(out, p)
 	}
 	return out
@@ -87,10 +85,13 @@ func TestVF_C13(t *testing.T) {
 	}
 	dir := t.TempDir()
 	var wg sync.WaitGroup
+	sem := make(chan struct{}, 6)
 	for _, c := range cases {
 		wg.Add(1)
 		go func(c c13Params) {
 			defer wg.Done()
+			sem <- struct{}{}
+			defer func() { <-sem }()
 			pj, _ := json.Marshal(c)
 			logf := filepath.Join(dir, fmt.Sprintf("case-%d.log", c.CaseIndex))
 			rc, tail := c13RunChild(t, "^TestVFChild_C13Scenario$", []string{"VF_C13_SCENARIO=" + string(pj), "VF_C13_DIR=" + filepath.Join(dir, fmt.Sprintf("case-%d", c.CaseIndex))}, logf, 22*time.Minute)
@@ -248,6 +249,10 @@ func (sc *c13Scenario) main() {
 	}
 	nt := c13NewNet(sc.t, sc.lg, filepath.Join(sc.dir, "nodes"), sch, time.Second, 0, engine)
 	sc.nt = nt
+	nt.onStopHang = func(n *c13Node, dump string) {
+		run.Note(fmt.Sprintf("case %d: DrandDaemon.Stop of node %d did not return within 20 s:\n%s", p.CaseIndex, n.idx, dump))
+		run.Count("daemon_stop_hangs", 1)
+	}
 	defer nt.close()
 	ns, err := nt.addNodes(p.N)
 	if err != nil {
@@ -352,21 +357,26 @@ func (sc *c13Scenario) main() {
 	sc.others = rem
 	g3, err := nt.runReshare(c13Reshare{leader: rem[0], remaining: rem, leaving: []*c13Node{sc.victim}, thr: len(rem)/2 + 1})
 	if err != nil {
+		// a reshare with a declared leaver fails in a fair share of the runs (with or without the recorder: the
+		// leaver's kyber instance quits early and some remaining nodes then evict each other). The crash windows
+		// recorded so far are still evaluated; the rest of the script is skipped.
 		fail("reshare 2", err)
-		close(stopPoll)
-		return
+		if h, ok := nt.head(rem[0]); ok {
+			nt.waitHeads(rem, h+2, 30)
+		}
+	} else {
+		tr3 := common.CurrentRound(g3.TransitionTime, g3.Period, g3.GenesisTime)
+		if p.ForcedLeave && !norec {
+			sc.forceLeave(g3)
+		}
+		if _, ok := nt.waitHeads(rem, tr3+3, 60); !ok {
+			fail("rounds after transition 2", fmt.Errorf("network did not reach round %d", tr3+3))
+			close(stopPoll)
+			return
+		}
+		run.Count("rounds_reached", int64(tr3+3))
+		run.Count("scenario_completed", 1)
 	}
-	tr3 := common.CurrentRound(g3.TransitionTime, g3.Period, g3.GenesisTime)
-	if p.ForcedLeave {
-		sc.forceLeave(g3)
-	}
-	if _, ok := nt.waitHeads(rem, tr3+3, 60); !ok {
-		fail("rounds after transition 2", fmt.Errorf("network did not reach round %d", tr3+3))
-		close(stopPoll)
-		return
-	}
-	run.Count("rounds_reached", int64(tr3+3))
-	run.Count("scenario_completed", 1)
 	if norec {
 		close(stopPoll)
 		pollWG.Wait()
@@ -376,7 +386,11 @@ func (sc *c13Scenario) main() {
 	close(stopPoll)
 	pollWG.Wait()
 	rec.uninstall()
-	nt.stopNode(sc.victim)
+	if ok, dump := nt.stopNode(sc.victim); !ok {
+		run.Note(fmt.Sprintf("case %d: the victim's DrandDaemon.Stop did not return within 20 s; restarts skipped:\n%s", p.CaseIndex, dump))
+		run.Count("daemon_stop_hangs", 1)
+		sc.p.Restarts = -1
+	}
 
 	sc.evaluate(sch, pub, engine)
 }
